@@ -214,6 +214,9 @@ def resolveData (types : List Elem) (d : DataDef) : Except String NData :=
     match findLeaf lv "length", findLeaf lv "varData" with
     | some len, some vd =>
       if vd.count ≠ 0 then .error "data header element `varData` must have length equal to 0"
+      else if len.off ≠ 0 ∨ sz ≠ len.size then
+        -- `validate_data_header_layout`: the runtime reads the length at offset 0, payload right behind it
+        .error s!"data header `{d.type}` must consist of `length` at offset 0 directly followed by `varData`"
       else .ok { name := d.name, lenSize := len.size, lenPrim := len.prim, lenOff := len.off, hdrSize := sz,
                  elemPrim := vd.prim }
     | _, _ => .error s!"data header `{d.type}` doesn't have required elements"
